@@ -526,3 +526,22 @@ func TestLargeBacklog(t *testing.T) {
 		check(t, c, "large-backlog")
 	}
 }
+
+// TestLongLogs: logs that grow past 10 000 entries (thorough: 100 000) - where offsets, segment
+// names and anything else printed in decimal gain a digit - with the consumer killed at offsets
+// before, at and after the boundary while part of the backlog is still ahead of it, then
+// restarted: every appended message is handed over, nothing is skipped.
+func TestLongLogs(t *testing.T) {
+	type sc struct{ n, k int }
+	scs := []sc{{10020, 9990}, {10020, 2600}, {10600, 8400}, {10020, 9999}, {10300, 10000}, {12700, 10001}}
+	if ev.Tier() == "thorough" {
+		scs = append(scs, sc{100020, 99990}, sc{100500, 20500}, sc{101000, 100000}, sc{20020, 19990}, sc{10020, 5000}, sc{11000, 7499})
+	}
+	for i, x := range scs {
+		x := x
+		t.Run(fmt.Sprint(i), func(t *testing.T) {
+			t.Parallel()
+			check(t, Case{Rounds: []Round{{Append: x.n, Crash: fmt.Sprintf("exit:%d", x.k)}, {Append: 0, Crash: "none"}, {Append: 7, Crash: fmt.Sprintf("enter:%d", x.n+3)}, {Append: 2, Crash: "none"}}}, "long-log")
+		})
+	}
+}
